@@ -1,9 +1,11 @@
 package harness
 
 import (
+	"bytes"
 	"crypto/sha1"
 	"crypto/sha256"
 	"crypto/sha512"
+	"encoding/xml"
 	"fmt"
 	"math/rand"
 	"strings"
@@ -23,14 +25,32 @@ type c18KD struct {
 	Certs []string `json:"certs"`
 }
 
+// c18RoleKD is one KeyDescriptor of another role descriptor of the IdP's entity:
+// role "sp" = SPSSODescriptor, "aa" = AttributeAuthorityDescriptor.
+type c18RoleKD struct {
+	Role  string   `json:"role"`
+	Use   string   `json:"use"`
+	Certs []string `json:"certs"`
+}
+
+// c18Key maps a signer / certificate class of the spec to a harness key pair: "role" (the
+// key the entity publishes for another role only) is the spare RSA-2048 pair "sp2".
+func c18Key(name string) *KeyPair {
+	if name == "role" {
+		return key("sp2")
+	}
+	return key(name)
+}
+
 // c18Trust is TrustOf(cfg.trust) of the spec: what sp.IDPMetadata lists, the pinned
 // IDPCertificate, the IDPCertificateFingerprint (+ algorithm); "none" = not set.
 type c18Trust struct {
-	MdNil bool    `json:"mdnil"`
-	Md    []c18KD `json:"md"`
-	Pin   string  `json:"pin"`
-	Fp    string  `json:"fp"`
-	Alg   string  `json:"alg"`
+	MdNil bool        `json:"mdnil"`
+	Md    []c18KD     `json:"md"`
+	Oth   []c18RoleKD `json:"oth"` // key descriptors of the entity's other role descriptors
+	Pin   string      `json:"pin"`
+	Fp    string      `json:"fp"`
+	Alg   string      `json:"alg"`
 	set   bool
 }
 
@@ -119,30 +139,127 @@ func c18SPFor(v *c18Vec, rng *rand.Rand) *saml.ServiceProvider {
 		panic("c18SPFor: vector not normalised")
 	}
 	md := idpMetadata(nil)
+	mkKD := func(use string, certs []string) saml.KeyDescriptor {
+		kd := saml.KeyDescriptor{Use: use}
+		for _, name := range certs {
+			kd.KeyInfo.X509Data.X509Certificates = append(kd.KeyInfo.X509Data.X509Certificates,
+				saml.X509Certificate{Data: c18CertText(c18Key(name), rng)})
+		}
+		return kd
+	}
 	var kds []saml.KeyDescriptor
 	for _, d := range t.Md {
-		kd := saml.KeyDescriptor{Use: d.Use}
-		for _, name := range d.Certs {
-			kd.KeyInfo.X509Data.X509Certificates = append(kd.KeyInfo.X509Data.X509Certificates,
-				saml.X509Certificate{Data: c18CertText(key(name), rng)})
-		}
-		kds = append(kds, kd)
+		kds = append(kds, mkKD(d.Use, d.Certs))
 	}
 	md.IDPSSODescriptors[0].KeyDescriptors = kds
+	if len(t.Oth) > 0 {
+		md = c18WithOtherRoles(md, t.Oth, mkKD, rng)
+	}
 	s := newSP(md)
 	if t.MdNil {
 		s.IDPMetadata = nil
 	}
 	if t.Pin != "none" {
-		s.IDPCertificate = sp(c18CertText(key(t.Pin), rng))
+		s.IDPCertificate = sp(c18CertText(c18Key(t.Pin), rng))
 	}
 	if t.Fp != "none" {
-		s.IDPCertificateFingerprint = sp(c18FingerprintOf(key(t.Fp), t.Alg))
+		s.IDPCertificateFingerprint = sp(c18FingerprintOf(c18Key(t.Fp), t.Alg))
 	}
 	if t.Alg != "none" {
 		s.IDPCertificateFingerprintAlgorithm = sp(c18AlgURI(t.Alg))
 	}
 	return s
+}
+
+// c18WithOtherRoles adds an SPSSODescriptor / an AttributeAuthorityDescriptor carrying the
+// given key descriptors to the IdP's EntityDescriptor (the entity also acts as a service
+// provider towards upstream IdPs / answers attribute queries) and passes the result through
+// XML, the way a metadata document reaches a ServiceProvider.
+func c18WithOtherRoles(md *saml.EntityDescriptor, oth []c18RoleKD, mkKD func(string, []string) saml.KeyDescriptor,
+	rng *rand.Rand) *saml.EntityDescriptor {
+	var spKDs, aaKDs []saml.KeyDescriptor
+	for _, d := range oth {
+		switch d.Role {
+		case "sp":
+			spKDs = append(spKDs, mkKD(d.Use, d.Certs))
+		case "aa":
+			aaKDs = append(aaKDs, mkKD(d.Use, d.Certs))
+		default:
+			panic("unknown role descriptor class " + d.Role)
+		}
+	}
+	if spKDs != nil {
+		yes := true
+		md.SPSSODescriptors = []saml.SPSSODescriptor{{
+			SSODescriptor: saml.SSODescriptor{
+				RoleDescriptor: saml.RoleDescriptor{ProtocolSupportEnumeration: nsProtocol, KeyDescriptors: spKDs},
+				SingleLogoutServices: []saml.Endpoint{
+					{Binding: saml.HTTPRedirectBinding, Location: "https://idp.example.com/broker/slo"}},
+			},
+			AuthnRequestsSigned: &yes,
+			AssertionConsumerServices: []saml.IndexedEndpoint{
+				{Binding: saml.HTTPPostBinding, Location: "https://idp.example.com/broker/acs", Index: 1}},
+		}}
+	}
+	if aaKDs != nil {
+		md.AttributeAuthorityDescriptors = []saml.AttributeAuthorityDescriptor{{
+			RoleDescriptor:    saml.RoleDescriptor{ProtocolSupportEnumeration: nsProtocol, KeyDescriptors: aaKDs},
+			AttributeServices: []saml.Endpoint{{Binding: saml.SOAPBinding, Location: "https://idp.example.com/saml/attributes"}},
+		}}
+	}
+	var raw []byte
+	var err error
+	if rng.Intn(2) == 0 {
+		raw, err = xml.Marshal(md)
+	} else {
+		raw, err = xml.MarshalIndent(md, "", "  ")
+	}
+	if err != nil {
+		panic("c18WithOtherRoles: marshal: " + err.Error())
+	}
+	back := &saml.EntityDescriptor{}
+	if err := xml.Unmarshal(raw, back); err != nil {
+		panic("c18WithOtherRoles: unmarshal: " + err.Error())
+	}
+	// harness self-check: every role descriptor and every key descriptor came back
+	n := func(e *saml.EntityDescriptor) [3]int {
+		var c [3]int
+		for _, d := range e.IDPSSODescriptors {
+			c[0] += len(d.KeyDescriptors)
+		}
+		for _, d := range e.SPSSODescriptors {
+			c[1] += len(d.KeyDescriptors)
+		}
+		for _, d := range e.AttributeAuthorityDescriptors {
+			c[2] += len(d.KeyDescriptors)
+		}
+		return c
+	}
+	if n(back) != n(md) || !bytes.Contains(raw, []byte("Descriptor")) {
+		panic(fmt.Sprintf("c18WithOtherRoles: the metadata did not survive the XML round trip: %v -> %v", n(md), n(back)))
+	}
+	return back
+}
+
+// c18OtherRoleSigner: metadata trust, and the signer's certificate is offered for signing by
+// another role descriptor of the entity only, not by the IDPSSODescriptor.
+func c18OtherRoleSigner(v *c18Vec) bool {
+	if c18TrustKind(v.Tc) != "metadata" {
+		return false
+	}
+	for _, k := range v.Trusted {
+		if k == v.In.Key {
+			return false
+		}
+	}
+	for _, d := range v.Tc.Oth {
+		for _, c := range d.Certs {
+			if c == v.In.Key && d.Use != "encryption" {
+				return true
+			}
+		}
+	}
+	return false
 }
 
 // c18TrustKind names the branch of the statement's "trusted IdP certificate" a
